@@ -1,6 +1,7 @@
 //! simcheck — driver for the checks that need no thread scheduler (engines E1, E2, E4).
 
 mod e1;
+mod e4;
 mod props;
 
 use sim_core::driver::{parse_options, run_check, Check};
